@@ -41,6 +41,7 @@ inductive Ev where
   | prog (n : Nat)            -- n nodes handed to the caller
   | err (e : RErr)
   | write (c : Cid) (b : Blk)
+  | block (c : Cid) (path : Path) (loc : Bool) (index : Nat)   -- incoming-block hook: a load answered with data
 deriving Repr, DecidableEq
 
 inductive Phase where
@@ -86,7 +87,8 @@ def writeEvs (r : Result) : List Ev :=
 def handle (s : State) (n : LNode) (rest : LT) (r : Result) : State × List Ev × Bool :=
   match r.err with
   | none =>
-    ({ s with todo := rest, nBlocks := s.nBlocks + 1 }, writeEvs r ++ [Ev.prog n.vData], true)
+    ({ s with todo := rest, nBlocks := s.nBlocks + 1 },
+      writeEvs r ++ [Ev.block n.cid n.path r.loc (s.nBlocks + 1), Ev.prog n.vData], true)
   | some e =>
     if s.ctxCancelled then
       -- ContextCancelError: nothing is reported, no cancel is sent
